@@ -394,7 +394,7 @@ fn main() {
     let seed = Rng::from_env().0;
     let scenarios = read_ndjson(&args[1]);
     let mut out = NdjsonOut::create(&args[2]);
-    let rt = tokio::runtime::Builder::new_multi_thread().worker_threads(2).enable_all().build().expect("runtime");
+    let rt = tokio::runtime::Builder::new_multi_thread().worker_threads(4).enable_all().build().expect("runtime");
     for (i, sc) in scenarios.iter().enumerate() {
         if i % nshards != shard {
             continue;
